@@ -53,7 +53,7 @@ ASSUMPTIONS = [
 TECHNIQUE = "differential testing against pandas groupby with Hypothesis-generated frames, partitionings, groupings and operations"
 
 REDUCERS = ["sum", "prod", "min", "max", "count", "mean", "var", "std", "first", "last", "size", "nunique", "idxmin", "idxmax", "median", "cov", "corr"]
-AGG_FUNCS = ["sum", "min", "max", "count", "mean", "var", "std", "first", "last", "size", "nunique", "prod", "median"]
+AGG_FUNCS = ["sum", "min", "max", "count", "mean", "var", "std", "first", "last", "size", "prod", "median"]
 CUMS = ["cumsum", "cumprod", "cumcount"]
 TRANSFORMS = ["transform", "shift", "ffill", "bfill"]
 
@@ -153,7 +153,21 @@ def check(spec):
         na_key_kind=any(kinds.get(c) == "keyna" for c in bycols),
         sliced="slice" in g,
         empty_part=case.has_empty,
+        dropna_false=g.get("dropna") is False,
+        slice_unsorted=isinstance(g.get("slice"), list) and list(g["slice"]) != sorted(g["slice"]),
+        dup_index=not case.unique_index,
+        zero_rows=len(case.pdf) == 0,
+        shuffle=str(tune.get("shuffle_method", "default")),
+        split_gt1=tune.get("split_out") is True or (isinstance(tune.get("split_out"), int) and tune.get("split_out") > 1),
+        index_unnamed=spec["frame"].get("index", {}).get("name") is None,
+        uses_first_last=a.get("name") in ("first", "last") or any(x in repr(a.get("arg")) for x in ("'first'", "'last'")),
+        uses_median=a.get("name") == "median" or "'median'" in repr(a.get("arg")),
     )
+    spans, na_key = key_facts(case, g, envp)
+    sig["na_key_present"] = na_key
+    sl = g.get("slice")
+    vcols = [c for c in ([sl] if isinstance(sl, str) else sl or [n for n in kinds if n not in bycols]) if c in case.base.columns]
+    sig["vals_na"] = bool(case.base[vcols].isna().to_numpy().any()) if vcols and len(case.base) else False
     with warnings.catch_warnings(), np.errstate(all="ignore"):
         warnings.simplefilter("ignore")
         status, want = reference(apply_groupby, case.base, g, a, envp)
@@ -165,15 +179,21 @@ def check(spec):
                 meta = lazy._meta
                 got = F.compute(lazy)
         except Violation as v:
-            if isinstance(v.__cause__, NotImplementedError):
+            cause = v.__cause__
+            if isinstance(cause, NotImplementedError):
                 count("dask-notimplemented")
                 raise Reject("dask refuses: NotImplementedError") from None
+            if isinstance(cause, ValueError) and str(cause).startswith("unknown aggregate"):
+                # explicit refusal: the aggregate is not in dask's documented list of supported names
+                count("dask-documented-refusal")
+                raise Reject("dask refuses with its documented message") from None
             raise
     maybe_empty = True  # per-partition group aggregation: any partition may lack a group
     kind = a["kind"]
     kw = dict(what=f"{sig['agg']} by {sig['by']}", sig=sig, maybe_empty=maybe_empty)
     if kind in ("reduce", "agg", "value_counts"):
-        ordered = g.get("sort") is True and tune.get("split_out", 1) in (1, None)
+        # value_counts: pandas orders the entries of a group by count, ties freely - compared as a mapping
+        ordered = kind != "value_counts" and g.get("sort") is True and not sig["split_gt1"]
         if not ordered and D.kind_of(got) in ("Series", "DataFrame") and D.kind_of(want) == D.kind_of(got):
             got, want = sort_by_keys(got), sort_by_keys(want)
         name = a.get("name")
@@ -185,15 +205,51 @@ def check(spec):
     if kind == "cum":
         D.compare(got, want, meta, **kw)
         return
-    # transform-like: same index labels and rows, order within the result not promised by dask
+    # transform-like: same index labels and rows, order within the result not promised by dask.
+    # dask documents that a shuffle may not preserve the order of rows WITHIN a group (the disk shuffle
+    # indeed does not), so order-dependent functions (shift/ffill/bfill/cummax/rank) are compared by value
+    # only when no shuffle happens: one partition, or grouping by the index with known divisions.
+    order_dependent = a["name"] in ("shift", "ffill", "bfill") or a.get("fn") in ("cummax", "rank_first")
+    shuffles = case.nparts > 1 and not (g["by"] == "index" and case.known_div)
+    if order_dependent and shuffles:
+        count("order-dependent-transform-weak-check")
+        weak_compare(got, want, sig)
+        return
     D.compare(got, want, meta, check_order=False, **kw)
 
 
+def weak_compare(got, want, sig):
+    from vf.core import ensure
+
+    ensure(D.kind_of(got) == D.kind_of(want), f"kind {D.kind_of(got)} != pandas {D.kind_of(want)}", "type-mismatch", **sig)
+    ensure(len(got) == len(want), f"{len(got)} rows, pandas {len(want)}", "length-mismatch", **sig)
+    if isinstance(want, pd.DataFrame):
+        ensure(list(got.columns) == list(want.columns), f"columns {list(got.columns)} != pandas {list(want.columns)}", "columns-mismatch", **sig)
+    else:
+        ensure(got.name == want.name, f"name {got.name!r} != pandas {want.name!r}", "name-mismatch", **sig)
+    gi = sorted(map(repr, got.index.tolist()))
+    wi = sorted(map(repr, want.index.tolist()))
+    ensure(gi == wi, "index labels differ as multisets", "index-mismatch", **sig)
+
+
 def sort_by_keys(x):
-    try:
-        return x.sort_index(kind="stable")
-    except TypeError:
-        return x
+    """Stable order by the group keys (all index levels), missing keys last - done by hand because
+    sort_index on categorical / MultiIndex levels with missing keys is not uniform across index types."""
+    idx = x.index
+    levels = [idx.get_level_values(i) for i in range(idx.nlevels)]
+
+    def key(v):
+        if D.F._isna(v):
+            return (2, 0.0, "")
+        if isinstance(v, (bool, np.bool_)):
+            return (0, float(v), "")
+        if isinstance(v, (int, float, np.integer, np.floating)):
+            return (0, float(v), "")
+        return (1, 0.0, str(v))
+
+    rows = [tuple(key(lv[i]) for lv in levels) for i in range(len(idx))]
+    order = sorted(range(len(idx)), key=rows.__getitem__)
+    return x.iloc[order]
 
 
 def uses_var(a):
@@ -374,8 +430,9 @@ def random_case(draw):
             cs = draw(st.lists(st.sampled_from(pool), min_size=1, max_size=len(pool), unique=True))
             a["arg"] = {"dict": [[c, draw(st.lists(funcs, min_size=1, max_size=2, unique=True))] for c in cs]}
         else:
-            cs = draw(st.lists(st.sampled_from(pool), min_size=1, max_size=3))
-            a["arg"] = [[f"out{i}", [c, draw(funcs)]] for i, c in enumerate(cs)]
+            # distinct (column, function) pairs: dask explicitly refuses duplicates ("conflicting aggregation functions")
+            pairs = draw(st.lists(st.tuples(st.sampled_from(pool), funcs), min_size=1, max_size=3, unique=True))
+            a["arg"] = [[f"out{i}", [c, f]] for i, (c, f) in enumerate(pairs)]
             a["named"] = True
     elif kind == "cum":
         a["name"] = draw(st.sampled_from(CUMS))
